@@ -244,6 +244,12 @@ def cases(draw, max_dims=4, max_len=3):
         U["dims"][0]["dtype"] = "int"
     else:
         U = draw(gen.universes(min_dims=draw(st.sampled_from([2, 2, 3])), max_dims=max_dims, max_len=max_len))
+        if kind != "from_df" and draw(st.integers(0, 5)) == 0:
+            # two dimensions over the very same items (years and vintages, origin and destination regions): they are
+            # told apart by letter / name only (all keys in this facet name the dimension)
+            i_, j_ = draw(st.permutations(range(len(U["dims"]))))[:2]
+            U["dims"][j_]["items"] = list(U["dims"][i_]["items"])
+            U["dims"][j_]["dtype"] = U["dims"][i_]["dtype"]
     allL = gen.uletters(U)
     op = {"kind": kind, "arrays": {}}
     A = op["arrays"]
